@@ -32,6 +32,9 @@ RULE = (
     "measures sum to the parent's (rtol 1e-9); where no map is returned (refine_grid_1d) the parent is the unique old "
     "cell containing the child's centre. structured_refinement returns a (fine x coarse) 0/1 matrix with exactly one 1 "
     "per fine row, in the column of the coarse cell that contains the fine centre (own point-in-simplex test). "
+    "In a third of the 1-d / 2-d extrusions the geometry of the base grid is computed, its nodes are then moved in place "
+    "inside the xy-plane (shift, mirror, rotation, stretch) without recomputing, and extrude_grid - whose docstring "
+    "says it computes the original grid's geometry - is called; the oracle refers to the grid as its nodes stand. "
     "In a third of the cases all lengths (nodes, rigid shift, extrusion heights) are multiplied by a unit factor in "
     "{1e-5, 1e-4, 1e-3, 1e2, 1e3}; every tolerance of the oracle is relative to the grid's own extent (plus the "
     "rounding floor of its coordinates), no absolute tolerance. "
@@ -51,7 +54,7 @@ ASSUMPTIONS = ["grids to be extruded lie in the xy-plane (documented preconditio
                "1-d grids to be extruded are TensorGrids (signature of _extrude_1d); permuted 1-d grids are not extruded",
                "remesh_1d is applied to 1-d grids without internal boundaries (docstring: use with care otherwise)"]
 FNS = ["refine1d", "remesh1d", "reftri", "reftri", "structref", "extrude", "extrude", "extrude"]
-REQUIRED = {"scaled-small": 0.1, "scaled-large": 0.05, "1d-permuted-cells": 0.03, "1d-permuted-nodes": 0.03, "refine1d": 0.05, "remesh1d": 0.05, "structref": 0.05, "extrude": 0.15, "extrude-0d": 0.01,
+REQUIRED = {"stale-geometry": 0.05, "scaled-small": 0.1, "scaled-large": 0.05, "1d-permuted-cells": 0.03, "1d-permuted-nodes": 0.03, "refine1d": 0.05, "remesh1d": 0.05, "structref": 0.05, "extrude": 0.15, "extrude-0d": 0.01,
             "extrude-1d": 0.03, "extrude-2d": 0.05, "extrude-down": 0.03, "extrude-offset": 0.03}
 
 
@@ -120,6 +123,12 @@ def _spec(draw, tier):
         s["z0"] = draw(st.sampled_from([0.0, 0.0, 0.37, 1.5]))
         s["layers"] = [draw(_f(0.2, 1.5)) for _ in range(draw(st.integers(1, 4)))]
         s["down"] = draw(st.booleans())
+        if d > 0 and draw(st.integers(0, 2)) == 0:
+            # stale geometry: the geometry is computed, then the nodes are moved in place inside the xy-plane WITHOUT
+            # recomputing, then extrude_grid is called (its docstring: the original grid has its geometry computed)
+            s["stale"] = {"kind": draw(st.sampled_from(["shift", "mirror", "rot", "stretch"])),
+                          "shift": [draw(_f(-4, 4)), draw(_f(-4, 4))], "angle": draw(_f(0.3, 3.0)),
+                          "factor": draw(st.sampled_from([0.5, 2.0, 3.0]))}
     # global length scale (unit of length) in about a third of the cases; everything with the dimension of a length
     # is multiplied, including the shift of the rigid motion and the extrusion heights
     sc = draw(st.sampled_from([None] * 10 + SCALES))
@@ -147,6 +156,8 @@ def _apply_scale(s, sc):
         s["single"] = [[v * sc for v in pt] for pt in s["single"]]
     if "point" in s:
         s["point"] = [v * sc for v in s["point"]]
+    if "stale" in s:
+        s["stale"]["shift"] = [v * sc for v in s["stale"]["shift"]]
     if "layers" in s:
         s["z0"] = s["z0"] * sc
         s["layers"] = [v * sc for v in s["layers"]]
@@ -439,6 +450,24 @@ def _check(s):
         meta = grid_meta(s["grid"])
         base_measure = meta["measure"]
         labels += meta["labels"] + [f"extrude-{g.dim}d"]
+        if s.get("stale"):
+            st_ = s["stale"]
+            labels += ["stale-geometry", "stale-" + st_["kind"]]
+            x, y = g.nodes[0].copy(), g.nodes[1].copy()
+            if st_["kind"] == "shift":
+                x, y = x + st_["shift"][0], y + st_["shift"][1]
+            elif st_["kind"] == "mirror":
+                x = -x + st_["shift"][0]
+            elif st_["kind"] == "rot":
+                c_, s_ = np.cos(st_["angle"]), np.sin(st_["angle"])
+                x, y = c_ * x - s_ * y + st_["shift"][0], s_ * x + c_ * y + st_["shift"][1]
+            else:  # dilation about a shifted origin (keeps every cell valid, scales the measure by factor^dim)
+                x, y = st_["factor"] * x + st_["shift"][0], st_["factor"] * y + st_["shift"][1]
+                base_measure *= st_["factor"] ** g.dim
+            g.nodes[0], g.nodes[1] = x, y  # in place; compute_geometry() is deliberately not called
+            fresh = g.copy()
+            fresh.compute_geometry()
+            stale_volumes = fresh.cell_volumes
     old = {k: getattr(g, k).copy() for k in ("nodes", "cell_centers", "cell_volumes")}
     h, cell_map, face_map = pp.grid_extrusion.extrude_grid(g, zs.copy())
     require(h.dim == g.dim + 1 and h.num_cells == nl * g.num_cells, "extrude-sizes",
@@ -454,6 +483,8 @@ def _check(s):
         parent[row] = c
     require(np.all(parent >= 0), "extrude-map-complete", "a new cell has no parent")
     vol0 = old["cell_volumes"] if g.dim > 0 else np.ones(1)
+    if s.get("stale"):
+        vol0 = stale_volumes  # measured on a copy whose geometry was recomputed after the move
     gg = type("G", (), {"num_cells": g.num_cells, "cell_volumes": vol0})
     _check_children(gg, h, parent, nl, "extrude-", factor=height)
     ltol = _ltol(h.nodes)
